@@ -44,6 +44,7 @@ pub fn op_kind(op: &Op) -> &'static str {
         Op::MigrateMid { .. } => "migrate_mid",
         Op::HostileReply { .. } => "hostile_reply",
         Op::HostileExec { .. } => "hostile_exec",
+        Op::Donate { .. } => "donate",
     }
 }
 
@@ -280,6 +281,7 @@ impl Engine {
             Op::MigrateMid { synthetic_replies } => self.op_migrate_mid(*synthetic_replies),
             Op::HostileReply { id_sel, ok, data } => self.op_hostile_reply(*id_sel, *ok, *data),
             Op::HostileExec { who, kind } => self.op_hostile_exec(*who, *kind),
+            Op::Donate { user, kind, amount } => self.op_donate(*user, *kind, *amount),
         }
         self.note_panics();
         let ok = self.last_tx.as_ref().map(|t| t.ok).unwrap_or(true);
@@ -646,6 +648,36 @@ impl Engine {
         }
     }
 
+    /// F22: a plain bank transfer into the contract's account. No entry point runs; nothing the contract
+    /// records may change and nobody's claim may grow or shrink because of it.
+    fn op_donate(&mut self, user: u8, kind: u8, amount: u128) {
+        let from = self.user_addr(user);
+        let s = self.s_addr();
+        let (denom, amt) = match kind % 3 {
+            0 => {
+                self.w.faucet(&from, amount);
+                (self.ibc(), amount)
+            }
+            1 => {
+                let have = self.w.st.bank.balance(&from, &self.lst);
+                (self.lst.clone(), amount.min(have))
+            }
+            _ => {
+                self.w.st.bank.mint(&from, "uosmo", amount);
+                ("uosmo".to_string(), amount)
+            }
+        };
+        if amt == 0 || self.w.st.bank.send(&from, &s, &denom, amt).is_err() {
+            return;
+        }
+        self.stats.fault("F22_unsolicited_deposit");
+        match kind % 3 {
+            0 => self.m.donated_ibc += amt,
+            1 => self.m.donated_lst += amt,
+            _ => {}
+        }
+    }
+
     fn op_submit(&mut self, caller: Who) {
         let sender = match self.who_addr(caller) {
             Some(s) => s,
@@ -973,8 +1005,23 @@ impl Engine {
         let ch = self.m.cfg.channel.clone();
         let other_role = if role_native == self.m.cfg.staker { self.m.cfg.collector.clone() } else { self.m.cfg.staker.clone() };
         let mut prev_channel = false;
+        let wrong_denom = matches!(mode, Deliver::WrongDenom);
         let (native_sender, channel, genuine): (String, String, bool) = match mode {
             Deliver::Exact | Deliver::Short(_) | Deliver::Long(_) => (role_native.to_string(), ch.clone(), true),
+            // the right account over the right channel, but not a unit of the staked asset arrives
+            Deliver::WrongDenom => (role_native.to_string(), ch.clone(), false),
+            Deliver::DirectBy(who) => {
+                let a = self.who_addr(who)?;
+                if a == s || a == self.hook_of(role_native) {
+                    return None;
+                }
+                self.w.faucet(&a, amount);
+                let ibc = self.ibc();
+                self.stats.fault("F14_impersonation");
+                self.stats.probe("privileged_account_poses_as_hook_sender");
+                let r = self.exec(&a, &[(ibc, amount)], msg, origin);
+                return Some((a, false, r));
+            }
             Deliver::OtherChannel => {
                 // either a channel never configured, or (if the configuration has moved) the channel that was
                 // configured before: its hook accounts were genuine once and are impostors now
@@ -1003,7 +1050,7 @@ impl Engine {
                 return Some((u0, false, r));
             }
         };
-        if !genuine {
+        if !genuine && !wrong_denom {
             self.stats.fault("F14_impersonation");
         }
         // funding: the genuine staker pays from its holdings; everybody else is topped up
@@ -1026,6 +1073,11 @@ impl Engine {
         if prev_channel {
             // the staked asset arriving over the formerly configured channel is the same voucher the contract knows
             self.w.st.inpackets[id].denom_on_dest = self.w.setup.ibc_denom.clone();
+        }
+        if wrong_denom {
+            // some other token of the native chain: its voucher on the protocol chain has its own hash
+            self.stats.fault("F10_wrong_denom_delivery");
+            self.w.st.inpackets[id].denom_on_dest = format!("ibc/{}", hex(&crate::world::sha2_of(&format!("transfer/{}/uother{}", channel, amount % 3))).to_uppercase());
         }
         let r = self.w.relay_inbound(id, false);
         self.w.cur_origin = Origin::Other;
@@ -1060,7 +1112,7 @@ impl Engine {
             _ => expected,
         }
         .max(1);
-        if self.sw.honest && !matches!(mode, Deliver::Exact | Deliver::OtherAccount | Deliver::OtherChannel | Deliver::RoleSwap | Deliver::DirectCall) {
+        if self.sw.honest && matches!(mode, Deliver::Short(_) | Deliver::Long(_)) {
             return; // honest runs deliver exactly
         }
         if self.sw.honest && expected == 0 && matches!(mode, Deliver::Exact) && mb.status == 1 {
@@ -1105,6 +1157,11 @@ impl Engine {
         if !accept {
             if self.m.halted {
                 self.v("C10", "halted_refuses_receive_unstaked", "ReceiveUnstakedTokens succeeded while halted".into());
+            } else if matches!(mode, Deliver::WrongDenom) {
+                let m = format!("batch {} became Received with {} units of a token that is not the staked asset; payouts from it are taken from other claims", id, amount);
+                self.v("C05", "received_counts_the_staked_asset_only", m.clone());
+                self.v("C02", "received_counts_the_staked_asset_only", m.clone());
+                self.v("C06", "received_only_by_payment_of_the_staked_asset", m);
             } else if !genuine {
                 self.v("C08", "receive_unstaked_staker_only", format!("ReceiveUnstakedTokens from {} accepted", acct));
                 self.v("C09", "impostor_refused", format!("ReceiveUnstakedTokens accepted from {} ({:?})", acct, mode));
@@ -1169,6 +1226,10 @@ impl Engine {
         // observational: the model below follows what was executed
         if self.m.halted {
             self.vo("C10", "halted_refuses_rewards", "ReceiveRewards succeeded while halted".into());
+        } else if matches!(mode, Deliver::WrongDenom) {
+            let m = format!("ReceiveRewards counted {} units of a token that is not the staked asset as rewards", amount);
+            self.v("C11", "rewards_counted_in_the_staked_asset_only", m.clone());
+            self.v("C01", "rewards_counted_in_the_staked_asset_only", m);
         } else if !genuine {
             self.vo("C08", "receive_rewards_collector_only", format!("ReceiveRewards from {} accepted", acct));
             self.vo("C09", "impostor_refused", format!("ReceiveRewards accepted from {} ({:?})", acct, mode));
